@@ -46,6 +46,16 @@ def make_pool(rng):
     return pool
 
 
+def collision_pool():
+    """two contractions that differ only by exchanging two labels whose Python hashes are equal (hash(-1) == hash(-2)),
+    handed over as they are (canonicalize=False): different meaning, so they may not share a cache entry"""
+    lab = {1: -1, 2: 1, 3: -2}
+    a = nets.Net([[1, 2], [2, 3]], [1, 3], [2, 3, 2], lab=lab)
+    b = nets.Net([[3, 2], [2, 1]], [1, 3], [2, 3, 2], lab=lab)
+    return [{"net": a, "optimize": "greedy", "kwargs": {"canonicalize": False}},
+            {"net": b, "optimize": "greedy", "kwargs": {"canonicalize": False}}]
+
+
 def call_record(c):
     net = c["net"]
     used = sorted({x for t in net.inputs for x in t} | set(net.output))
@@ -95,8 +105,8 @@ def replay_seq(run, ct, rng, pool, seq, entry):
     interface._CONTRACT_EXPR_CACHE.clear()
     events = []
     objs = {}
-    d = {"seq": seq, "entry": entry, "pool": [{"eq": c["net"].eq(), "sizes": c["net"].c_sizes(), "optimize": str(c["optimize"]),
-                                               "kwargs": c["kwargs"]} for c in pool]}
+    d = {"seq": seq, "entry": entry, "pool": [{"eq": f"{c['net'].c_inputs()}->{c['net'].c_output()}", "sizes": str(c["net"].c_sizes()),
+                                               "optimize": str(c["optimize"]), "kwargs": c["kwargs"]} for c in pool]}
     entry0 = entry
     for step, i in enumerate(seq):
         if entry0 == "mixed":
@@ -149,11 +159,12 @@ def replay_seq(run, ct, rng, pool, seq, entry):
                 if gb.shape != refb.shape or not np.allclose(gb, refb, rtol=1e-12, atol=1e-12):
                     ok = False
             else:   # array_contract_path
-                p = ct.array_contract_path(net.c_inputs(), net.c_output(), sizes_of(c), optimize=opt if opt != "auto" else "greedy", cache=True)
-                pu = ct.array_contract_path(net.c_inputs(), net.c_output(), sizes_of(c), optimize=opt if opt != "auto" else "greedy", cache=False)
+                ckw = {"canonicalize": kw["canonicalize"]} if "canonicalize" in kw else {}
+                p = ct.array_contract_path(net.c_inputs(), net.c_output(), sizes_of(c), optimize=opt if opt != "auto" else "greedy", cache=True, **ckw)
+                pu = ct.array_contract_path(net.c_inputs(), net.c_output(), sizes_of(c), optimize=opt if opt != "auto" else "greedy", cache=False, **ckw)
                 same = tuple(map(tuple, p)) == tuple(map(tuple, pu))
-                tree = ct.ContractionTree.from_path(net.c_inputs(), net.c_output(), net.c_sizes(), path=p)
-                got = unc = tree.contract(arrays)
+                # the value of the contraction along the returned path (explicit path, nothing cached)
+                got = unc = ct.array_contract(arrays, net.c_inputs(), net.c_output(), optimize=tuple(map(tuple, p)), cache_expression=False)
         g, u = value_of(got), value_of(unc)
         if g.shape != u.shape or not np.array_equal(g, u):
             same = False
@@ -208,6 +219,21 @@ def run(run):
                 continue
             cases.append(case)
             descs.append(d)
+    # labels with colliding hashes, not canonicalised: every sequence of length 3 over the two calls
+    cpool = collision_pool()
+    for entry in ("array_contract", "array_contract_expression", "array_contract_path", "expression_with_constants"):
+        for seq in ([1, 2, 1], [2, 1, 2], [1, 1, 2], [2, 2, 1], [1, 2, 2], [2, 1, 1]):
+            run.count()
+            run.nontrivial((entry, tuple(seq), "colliding-labels"))
+            try:
+                case, d = replay_seq(run, ct, rng, cpool, seq, entry)
+            except Exception as e:
+                run.violation(f"{entry}: sequence {seq} over labels with equal hashes raised {core.exc_text(e)}",
+                              {"seq": seq, "entry": entry}, tags={"raised", entry, "colliding-labels"})
+                continue
+            d["colliding"] = True
+            cases.append(case)
+            descs.append(d)
     cfg = "INIT JInit\nNEXT JNext\nCHECK_DEADLOCK FALSE\n"
     from concurrent.futures import ThreadPoolExecutor
     chunks = [list(range(a, min(a + 150, len(cases)))) for a in range(0, len(cases), 150)]
@@ -226,7 +252,7 @@ def run(run):
                 n = v[1]
                 call = d["pool"][d["seq"][n - 1] - 1]
                 run.violation(f"{d['entry']}: {v[0]} at call {n} of sequence {d['seq']}: {call} (events={cases[i]['events']})", d,
-                              tags={v[0], d["entry"]})
+                              tags={v[0], d["entry"]} | ({"colliding-labels"} if d.get("colliding") else set()))
             else:
                 run.sample({"entry": d["entry"], "sequence": d["seq"], "calls": [d["pool"][k - 1] for k in d["seq"]],
                             "events": cases[i]["events"], "verdict": "ok"})
